@@ -26,11 +26,13 @@ class SQLParseError(Exception):
 # set by the SQL side when the pipeline being interpreted contains a FULL join rendered for SQLite (which emulates it)
 FULL_JOIN_EMULATION = False
 
-PINF = z3.Real("__plus_infinity__")
-NINF = z3.Real("__minus_infinity__")
+PINF = C.PINF
+NINF = C.NINF
 
 
 def _inf_sign(c):
+    if C.INF_ON[0]:
+        return 0  # inf mode: +/-infinity are ordinary (extreme) values of the data, compared like any other value
     v = c.val
     if z3.is_const(v) and v.decl().kind() == z3.Z3_OP_UNINTERPRETED:
         n = v.decl().name()
